@@ -141,6 +141,10 @@ class Exec:
             else:
                 sub.cancelled = True
                 w.sub_cancel(iid, role)
+        elif op == 'dispose':
+            iid = self._it(a[0])
+            if iid is None or w.adapter_api is None or not w.adapter_api.dispose(iid):
+                return self._skip()
         elif op == 'fut_cancel':
             iid = self._it(a[0])
             if iid is None:
